@@ -197,9 +197,6 @@ func runC18(t *testing.T, sc scenario, prefix []int) explore.ExecResult {
 			if m.finally != 1 {
 				m.v("finally-count-at-end", fmt.Sprintf("completion callback ran %d times", m.finally))
 			}
-			if n := len(s.PendingTimers()); n > 0 {
-				m.v("timer-armed-after-done", fmt.Sprintf("%d timer(s) still armed after the transaction finished", n))
-			}
 		}
 		cancel()
 		s.TimerChoices = false
